@@ -651,6 +651,42 @@ def run_reregistration(chk, F):
            bad or '', key='E9|Base_swap::_orderRows|reregistration')
 
 
+def run_order_before_count(chk, F):
+    """E2-order-counted: _orderRows() applies the pending lazy swaps to the columns 0 .. get_number_of_columns() - 1,
+    and with the vector container that number is the insertion counter. On every path of a remove_last of the base /
+    boundary matrices no call of _orderRows / _orderRowsIfNecessary runs after the counter was decremented: the column
+    being removed would be skipped, keep the index of the column it was swapped with and take that column's row entries
+    with it when it is destroyed."""
+    n = 0
+    for f in F.functions:
+        if f.get('clsname') not in ('Base_matrix', 'Boundary_matrix') or f['name'] != 'remove_last' or \
+                f.get('inst') not in (0, 2) or f.get('body') is None:
+            continue
+
+        def cl(x):
+            if x.get('k') == 'UnaryOperator' and x.get('op') == '--' and \
+                    (ir.skipcasts(x['c'][0]) or {}).get('n') == 'nextInsertIndex_':
+                return ['DEC']
+            if ir.is_call(x) and ir.call_name(x) in ('_orderRows', '_orderRowsIfNecessary', 'get_column', 'get_row'):
+                return ['ORDER']
+            return []
+        ps = paths.enumerate_paths(f, cl, loop_mode='01', keep_conds=False, cap=20000)
+        if not any('DEC' in p.tags() for p in ps):
+            raise AnalysisBroken('C09: %s::remove_last no longer decrements nextInsertIndex_' % f['clsname'])
+        n += 1
+        bad = None
+        for p in ps:
+            t = p.tags()
+            if 'DEC' in t and 'ORDER' in t[t.index('DEC'):] and bad is None:
+                bad = p
+        chk.ob('E2-order-counted', '%s::remove_last applies pending lazy swaps only while the removed column still '
+               'counts (%d paths)' % (f['clsname'], len(ps)), '%s:%d' % (rel(f['file']), f['line']), bad is None,
+               '' if bad is None else 'a path decrements nextInsertIndex_ and then reorders: _orderRows() loops over '
+               'get_number_of_columns() columns and skips the column about to be removed',
+               key='E2|%s::remove_last|order-counted' % f['clsname'])
+    chk.expect_count('E2-order-counted', 'remove_last implementations with a column counter', n, 2)
+
+
 def run_unknown_rows(chk, F):
     """E12f-unknown-row: zero_entry / is_zero_entry / erase_empty_row take any row index, also of a row no column has
     an entry in ("zeroing of entries already zero"): every lookup of a function parameter in the dictionaries of the
@@ -1133,6 +1169,7 @@ def run(tier, replay=None):
     run_reorder_index(chk, F)
     run_reregistration(chk, F)
     run_unknown_rows(chk, F)
+    run_order_before_count(chk, F)
     findrule.run(chk, F, ('Base_matrix.h', 'base_swap.h', 'matrix_row_access.h',
                           'Base_matrix_with_column_compression.h'), TABLE.get('find_invariants', {}), 'C09', 3)
     c05.run_row_kinds(chk, F, only=('base_swap.h',), floor=8)
